@@ -131,6 +131,10 @@ def subharnesses(tier):
                     probe = {'aff': 'x', 'limits': {'server': 1, 'rack': 2}}
                 elif pv in ('lease', 'lease_late'):
                     probe = {'lease': 3600}
+                    if pv == 'lease_late':
+                        # as Loader.create_server builds them: no reboot date
+                        # yet when the server is attached to its rack
+                        servers = [{'valid_until': 0} for _ in range(ns)]
                 elif pv == 'partition':
                     servers = [{'label': 'p0'}, {'label': 'p1'},
                                {'label': 'p1'}][:ns]
